@@ -50,9 +50,11 @@ def queries(tier):
     alen = 8 + 4 + 16 + (36 + 12 + 4 + 16)
     for t in ([0, 7, 11, 27, 63, 64, alen - 1] if tier == "quick" else range(0, alen)):
         qs.append(q("art_trunc%03d" % t, "h_art_hostile", dict(A0, TRUNC=t), "PRT truncated to %d of %d bytes: refused" % (t, alen), vfs_n=2, vfs_cap=64))
+    if tier == "quick":          # the sprite-extraction queries (1 KiB palette + pixel file) take 25 minutes and more: thorough tier only
+        return qs
     A1 = artshape(1, 1, 0)
     qs.append(q("art_extract_valid", "h_art_hostile", dict(A1, EXTRACT=None), "valid PRT with one palette and one image (all fields symbolic within the rules): Write, index verification and ExtractImage for indices 0..2 against a symbolic 64-byte pixel file",
-                unwind=1400, timeout=1800, vfs_n=2, vfs_cap=64))
+                unwind=1400, timeout=3600, vfs_n=2, vfs_cap=64))
     for f, (fn, vals) in {6: ("image pixel offset", [0xFFFFFFFF]), 7: ("image height", [0, 0x7FFFFFFF, 0x80000000, 0xFFFFFFFF]), 8: ("image width", [0xFFFFFFFD])}.items():
         for v in (vals[:2] if tier == "quick" else vals):
             qs.append(q("art_extract_field%02d_%08x" % (f, v), "h_art_hostile", dict(A1, EXTRACT=None, FIELD=f, VAL="%du" % v), "PRT with %s = 0x%x, then ExtractImage" % (fn, v), unwind=1400, timeout=1800, vfs_n=2, vfs_cap=64))
